@@ -9,17 +9,23 @@ import (
 
 // Line/column candidates (structural choice: rendering a symbolic int forks per value anyway):
 // unknown (0), negative, 1, one/two/three/five digits.
-var vIntCands = []int{0, -1, 1, 7, 10, 99, 100, 12345}
+var vIntCands = []int{0, -1, 1, 12345, 7, 10, 99, 100}
 
-func vNondetPos() int { return vIntCands[verifNondetChoice(verifParam("INTS"))] }
+// vNondetPos: one of the first INTS candidates; INTS=0 means "positions are not varied" (the caller's default).
+func vNondetPos(fixed int) int {
+	if verifParam("INTS") == 0 {
+		return fixed
+	}
+	return vIntCands[verifNondetChoice(verifParam("INTS"))]
+}
 
 // vNondetPrintAnnotation: annotation with symbolic strings and candidate positions.
 func vNondetPrintAnnotation(allInts bool) *fileAnnotation {
 	fi := vNondetFileInfo(verifParam("PATH"))
-	sl, sc := vNondetPos(), vNondetPos()
+	sl, sc := vNondetPos(3), vNondetPos(4)
 	el, ec := 0, 0
 	if allInts {
-		el, ec = vNondetPos(), vNondetPos()
+		el, ec = vNondetPos(5), vNondetPos(6)
 	}
 	return newFileAnnotation(fi, sl, sc, el, ec,
 		verifNondetString(verifParam("TYPE")),
@@ -77,10 +83,34 @@ func vRefMSVS(a *fileAnnotation) string {
 		") : error " + t + " : " + vRefShownMessage(a) + vRefPluginSuffix(a)
 }
 
+// vRefGithubEscape: the GitHub Actions toolkit's escaping of workflow-command data ('%', CR, LF) and, for
+// property values, additionally ':' and ','.
+func vRefGithubEscape(s string, property bool) string {
+	out := ""
+	for i := 0; i < len(s); i++ {
+		c := s[i]
+		if c == '%' {
+			out += "%25"
+		} else if c == '\r' {
+			out += "%0D"
+		} else if c == '\n' {
+			out += "%0A"
+		} else if property && c == ':' {
+			out += "%3A"
+		} else if property && c == ',' {
+			out += "%2C"
+		} else {
+			out += s[i : i+1]
+		}
+	}
+	return out
+}
+
 // ::error file=path[,line=L[,col=C][,endLine=EL[,endColumn=EC]]]::message[ (plugin)]
+// with path escaped as a property value and message/plugin escaped as command data.
 // Unknown (<=0) positions are omitted instead of being shown as 1; an end position is only shown with a start line.
 func vRefGithub(a *fileAnnotation) string {
-	s := "::error file=" + vRefPath(a)
+	s := "::error file=" + vRefGithubEscape(vRefPath(a), true)
 	if a.startLine > 0 {
 		s += ",line=" + strconv.Itoa(a.startLine)
 		if a.startColumn > 0 {
@@ -93,7 +123,11 @@ func vRefGithub(a *fileAnnotation) string {
 			}
 		}
 	}
-	return s + "::" + a.message + vRefPluginSuffix(a)
+	s += "::" + vRefGithubEscape(a.message, false)
+	if a.pluginName != "" {
+		s += " (" + vRefGithubEscape(a.pluginName, false) + ")"
+	}
+	return s
 }
 
 // VerifLemma_C20B_TextMSVS: the text and msvs renderings of one annotation are exactly the reference layouts
@@ -121,10 +155,16 @@ func VerifLemma_C20B_Github() {
 	verifAssert(bg.String() == vRefGithub(a), "github-actions layout")
 }
 
-// vNondetSmallAnnotation: annotation for the multi-annotation lemma: no file or a 1-byte path, line 1 or 10,
-// one symbolic message byte.
+// vNondetSmallAnnotation: annotation for the multi-annotation lemma: no file or one of two concrete paths,
+// line 1 or 10, one symbolic message byte.
 func vNondetSmallAnnotation() *fileAnnotation {
-	fi := vNondetFileInfo(1)
+	var fi FileInfo
+	switch verifNondetChoice(3) {
+	case 1:
+		fi = &vFileInfo{path: "a.proto", ext: "a.proto"}
+	case 2:
+		fi = &vFileInfo{path: "b,b.proto", ext: "b,b.proto"}
+	}
 	line := 1
 	if verifNondetBool() {
 		line = 10
@@ -171,8 +211,10 @@ func VerifLemma_C20B_Dispatch() {
 	verifAssert(w.String() == want, "every annotation of the set, in set order, one reference line each")
 }
 
-// VerifLemma_C20B_GithubWellFormed: a github-actions workflow command is one line; the rendering of one annotation
-// must therefore not contain a raw line break (GitHub requires %0A / %0D escapes in the data and in property values).
+// VerifLemma_C20B_GithubWellFormed: a github-actions workflow command is one line `::error k=v,k=v::data`; whatever
+// path, message and plugin name contain, the rendering of one annotation has no raw CR/LF (they would cut the
+// command short), the property list has exactly the separators the printer itself wrote (a raw ':' or ',' in the
+// path would end or split the file= value), and every '%' starts one of the five escapes.
 func VerifLemma_C20B_GithubWellFormed() {
 	fi := vNondetFileInfo(verifParam("PATH"))
 	a := newFileAnnotation(fi, 1, 1, 1, 2, "T", verifNondetString(verifParam("MSG")), verifNondetString(verifParam("PLUGIN")))
@@ -181,12 +223,6 @@ func VerifLemma_C20B_GithubWellFormed() {
 	out := bg.Bytes()
 	verifCover("printed")
 	verifAssert(len(out) > 0 && out[len(out)-1] == '\n', "command is newline-terminated")
-	raw := false
-	for i := 0; i < len(out)-1; i++ {
-		if out[i] == '\n' || out[i] == '\r' {
-			raw = true
-		}
-	}
 	hasBreak := false
 	for _, s := range []string{vRefPath(a), a.message, a.pluginName} {
 		for i := 0; i < len(s); i++ {
@@ -195,13 +231,32 @@ func VerifLemma_C20B_GithubWellFormed() {
 			}
 		}
 	}
-	if !hasBreak {
-		verifCover("clean fields")
-		verifAssert(!raw, "fields without line breaks give a one-line command")
-		return
-	}
+	// F20 (fixed in c14ebfe): raw line breaks used to be written as they were
 	if verifKnown("F20-github-raw-newline", hasBreak) {
 		return
 	}
+	raw := false
+	for i := 0; i < len(out)-1; i++ {
+		if out[i] == '\n' || out[i] == '\r' {
+			raw = true
+		}
+	}
 	verifAssert(!raw, "line breaks in path/message/plugin are escaped, the command stays on one line")
+	// the property list: "::error file=<value>,line=1,col=1,endLine=1,endColumn=2::"
+	const head = "::error file="
+	const tail = ",line=1,col=1,endLine=1,endColumn=2::"
+	verifAssert(len(out) >= len(head)+len(tail) && string(out[:len(head)]) == head, "command head")
+	// the escaped path is what lies between head and the first ',' / ':' - it must be followed by the printer's own tail
+	j := len(head)
+	for j < len(out) && out[j] != ',' && out[j] != ':' {
+		j++
+	}
+	verifAssert(j+len(tail) <= len(out) && string(out[j:j+len(tail)]) == tail, "no raw ':' or ',' inside the file= value")
+	// every '%' starts an escape
+	for i := 0; i < len(out); i++ {
+		if out[i] == '%' {
+			ok := i+2 < len(out) && ((out[i+1] == '2' && (out[i+2] == '5' || out[i+2] == 'C')) || (out[i+1] == '0' && (out[i+2] == 'D' || out[i+2] == 'A')) || (out[i+1] == '3' && out[i+2] == 'A'))
+			verifAssert(ok, "a percent sign only occurs as part of an escape")
+		}
+	}
 }
